@@ -514,6 +514,16 @@ fn add_signature(st: &mut State) -> Sx {
 
 pub fn pkg_cmd(st: &mut State, name: &str, args: &[Sx]) -> Option<Sx> {
     match (name, args) {
+        ("query_text", [q]) => {
+            let l = q.as_list();
+            let text = match l[0].as_sym() {
+                "insert" => sx_insert(&l[1], &l[2]).to_string(),
+                "delete" => sx_delete(&l[1], &l[2]).to_string(),
+                "update" => sx_update(&l[1], &l[2], &l[3]).to_string(),
+                _ => sx_select(q).to_string(),
+            };
+            Some(Sx::ok(Sx::string(&text)))
+        }
         ("x_fault_run", [k, persistent, mode, cmds]) => Some(fault_run(k.as_int(), persistent.as_bool(), mode.as_sym(), cmds.as_list())),
         ("x_mutate_open", [seed, n, mode]) => Some(mutate_open(st, seed.as_int() as u64, n.as_int() as u64, mode.as_int() as u64)),
         ("add_signature", []) => {
